@@ -7,7 +7,8 @@ from ..model import AnalysisError
 from ..lib import (FV, decode_new, decode_call, phi_members, is_sym, is_const, is_str, strip_stores, stores_of, tuple_consts,
                    find_assign, find_assigns, simple_assigns, local_term)
 from ..lib import (reached_iff, reached_implies, implies_reached, reached_iff_any, path_term, cond_equiv, cond_implies,  # noqa: F401
-                   else_stmts, branch_stmts, context_literals, gated_values, value_iff, full_term)
+                   else_stmts, branch_stmts, context_literals, gated_values, value_iff, full_term, value_members,
+                   expand_conditional_values)
 from ..cfg import always_raises, walk_stmts
 from . import common as cm
 from . import geom
@@ -380,16 +381,17 @@ def d5_field_diff(chk, repo):
     chk.require(len(loops) == 2, "Field.diff: expected the line loop and the component loop")
     outer, inner = loops
     # the working field: the variable that is bound to self.pad(...) in a periodic direction (found by its value)
-    wf = find_assign(v, lambda t, s: (decode_call(v.ctx, t) or ("",))[0] == "Field.pad")
+    wf = find_assign(v, lambda t, s: any((decode_call(v.ctx, m_) or ("",))[0] == "Field.pad" for _, _, m_ in value_members(v.ctx, t)))
     chk.require(wf is not None, "Field.diff: no variable is bound to self.pad(...)")
     W = local_term(v, wf[1], outer)
-    mem = phi_members(v.ctx, W)
+    mem = [m_ for _, _, m_ in value_members(v.ctx, W)]
     padded = v.spec("self.pad({direction: (1, 1)}, mode='wrap')")
     okw = len(mem) == 2 and any(v.eq(m_, padded) for m_ in mem) and any(is_sym(v.ctx, m_, "self") for m_ in mem)
     chk.ob("field.Field.diff::periodic-padding", okw, "C04.D5",
            f"working field is {v.show(W)[:160]}; expected self, or self.pad({{direction: (1, 1)}}, mode='wrap') in a periodic direction",
            v.f, outer)
     gv = gated_values(v, wf[1], outer)
+    gv = expand_conditional_values(v, gv) if gv else gv
     # mesh.bc is either a string of periodic directions or one of the two names 'neumann' / 'dirichlet' (Mesh.bc setter); a
     # direction whose name happens to be a letter of those words (n, e, u, m, a, d, i, r, c, h, l, t) is not periodic then
     PERIODIC = "direction in self.mesh.bc and self.mesh.bc not in ('neumann', 'dirichlet')"
@@ -424,6 +426,19 @@ def d5_field_diff(chk, repo):
             v.ev._keep_seq = saved
         want_val = v.spec("_split_diff_combine(load, vmask, order, W.mesh.cell[d])", env=dict(env, load=load, vmask=vmask))
         ok = v.eq(idx, want_idx) and v.eq(val, want_val)
+        if not ok:
+            # the same line address written as a splice: (*i[:d], slice(None), *i[d + 1:]) is list(i) with entry d replaced
+            v.ev._keep_seq = True
+            try:
+                e3 = dict(env, i=each(v, it), comp=comp)
+                e3["line"] = v.spec("(*i[:d], slice(None), *i[d + 1:])", env=e3)
+                want_idx = v.spec("(*line, comp)", env=e3)
+                vmask = v.spec("(W.valid if restrict2valid else np.ones_like(W.valid, dtype=bool))[line]", env=e3)
+                load = v.spec("W.array[(*line, comp)]", env=e3)
+            finally:
+                v.ev._keep_seq = saved
+            want_val = v.spec("_split_diff_combine(load, vmask, order, W.mesh.cell[d])", env=dict(env, load=load, vmask=vmask))
+            ok = v.eq(idx, want_idx) and v.eq(val, want_val)
         det = f"out[{v.show(idx)[:120]}] = {v.show(val)[:260]}"
     chk.ob("field.Field.diff::line-load-store", ok, "C04.D5",
            f"{det}; expected out[line, comp] = _split_diff_combine(W.array[line, comp], mask[line], order, W.mesh.cell[axis]) with "
